@@ -202,7 +202,12 @@ func runWriteCase(c writeCase) error {
 		resc <- res{sb, err}
 		defer close(second)
 		if d2 := <-secondGo; d2 != nil {
-			sto.ReceiveBlob(ctx, blob.RefFromBytes(d2), bytes.NewReader(d2))
+			// a few more blobs of the same length: each of them takes buffers from the pools again
+			for i := 0; i < 4; i++ {
+				d := append([]byte(nil), d2...)
+				d[0] = byte('A' + i)
+				sto.ReceiveBlob(ctx, blob.RefFromBytes(d), bytes.NewReader(d))
+			}
 		}
 	}()
 	defer func() {
@@ -361,7 +366,7 @@ func runWriteCase(c writeCase) error {
 					break
 				}
 				if ok {
-					return fmt.Errorf("acknowledged blob %s (%q): replica #%d, which was slow and stored it after the acknowledgement (a second blob %q had been received meanwhile), holds %q under that ref", ref, data, i, data2, d)
+					return fmt.Errorf("acknowledged blob %s (%q): replica #%d, which was slow and stored it after the acknowledgement (four more blobs like %q had been received meanwhile), holds %q under that ref", ref, data, i, data2, d)
 				}
 				if time.Now().After(dl) {
 					break // a replica may legitimately never get the blob (its write failed)
